@@ -55,6 +55,10 @@ pub trait Kind: Frame + PartialEq + std::fmt::Debug + 'static {
     const FLOAT: bool;
     /// add_amp of two signals of this same frame type is possible (Signed = Self)
     const HAS_ADD: bool;
+    /// width of the integer sample format (0 for float formats)
+    const BITS: u32;
+    /// the sample with signed amplitude `a` (integer formats)
+    fn raw(a: i128) -> Self::O;
     fn to_o(s: Self::Sample) -> Self::O;
     fn of_o(o: Self::O) -> Self::Sample;
     fn tok(o: Self::O) -> String;
@@ -63,6 +67,8 @@ pub trait Kind: Frame + PartialEq + std::fmt::Debug + 'static {
     fn grid(i: i64) -> Self::O;
     /// signed amount number `i` (offsets, thresholds, steps)
     fn delta(i: i64) -> Self::O;
+    /// the signed amount `a` (integer formats)
+    fn wide_delta(a: i128) -> Self::O;
     /// sample plus signed amount
     fn o_shift(a: Self::O, k: Self::O) -> Self::O;
     // plain arithmetic of the oracle and of the user closures
@@ -92,41 +98,86 @@ pub trait Kind: Frame + PartialEq + std::fmt::Debug + 'static {
 macro_rules! int_kind {
     ($F:ty, $S:ty, $FL:ty, $name:expr, $n:expr) => {
         impl Kind for $F {
-            type O = i64;
+            type O = i128;
             const NAME: &'static str = $name;
             const N: usize = $n;
             const FLOAT: bool = false;
             const HAS_ADD: bool = true;
-            fn delta(i: i64) -> i64 { i }
-            fn o_shift(a: i64, k: i64) -> i64 { a + k }
-            fn to_o(s: $S) -> i64 { s as i64 }
-            fn of_o(o: i64) -> $S { assert!(o >= <$S>::MIN as i64 && o <= <$S>::MAX as i64, "harness value out of range"); o as $S }
-            fn tok(o: i64) -> String { o.to_string() }
+            const BITS: u32 = <$S>::BITS;
+            fn raw(a: i128) -> i128 { a }
+            fn delta(i: i64) -> i128 { i as i128 }
+            fn wide_delta(a: i128) -> i128 { a }
+            fn o_shift(a: i128, k: i128) -> i128 { a + k }
+            fn to_o(s: $S) -> i128 { s as i128 }
+            fn of_o(o: i128) -> $S { assert!(o >= <$S>::MIN as i128 && o <= <$S>::MAX as i128, "harness value out of range"); o as $S }
+            fn tok(o: i128) -> String { o.to_string() }
             fn amp_tok(p: i32) -> String { p.to_string() }
-            fn grid(i: i64) -> i64 { i }
-            fn o_add(a: i64, b: i64) -> i64 { a + b }
-            fn o_sub(a: i64, b: i64) -> i64 { a - b }
-            fn o_neg(a: i64) -> i64 { -a }
-            fn o_lin(a: i64, i: u64, b: i64) -> i64 { a + i as i64 * b }
-            fn o_scale(a: i64, p: i32) -> i64 { (a * p as i64 / 4).clamp(<$S>::MIN as i64, <$S>::MAX as i64) }
-            fn o_mul(_: i64, _: i64) -> i64 { unreachable!("mul_amp of two signals is generated for f64 only") }
-            fn o_clip(t: i64, a: i64) -> i64 { a.clamp(-t, t) }
+            fn grid(i: i64) -> i128 { i as i128 }
+            fn o_add(a: i128, b: i128) -> i128 { a + b }
+            fn o_sub(a: i128, b: i128) -> i128 { a - b }
+            fn o_neg(a: i128) -> i128 { -a }
+            fn o_lin(a: i128, i: u64, b: i128) -> i128 { a + i as i128 * b }
+            fn o_scale(a: i128, p: i32) -> i128 { (a * p as i128 / 4).clamp(<$S>::MIN as i128, <$S>::MAX as i128) }
+            fn o_mul(_: i128, _: i128) -> i128 { unreachable!("mul_amp of two signals is generated for float frames only") }
+            fn o_clip(t: i128, a: i128) -> i128 { a.clamp(-t, t) }
             fn add<'a>(a: Dyn<'a, Self>, b: Dyn<'a, Self>) -> Dyn<'a, Self> { Dyn(Box::new(a.add_amp(b))) }
             fn mul<'a>(_: Dyn<'a, Self>, _: Dyn<'a, Self>) -> Dyn<'a, Self> { unreachable!() }
             fn scale<'a>(a: Dyn<'a, Self>, p: i32) -> Dyn<'a, Self> { Dyn(Box::new(a.scale_amp(p as $FL / 4.0))) }
-            fn offset<'a>(a: Dyn<'a, Self>, k: i64) -> Dyn<'a, Self> { Dyn(Box::new(a.offset_amp(Self::of_o(k)))) }
+            fn offset<'a>(a: Dyn<'a, Self>, k: i128) -> Dyn<'a, Self> { Dyn(Box::new(a.offset_amp(Self::of_o(k)))) }
             fn scale_pc<'a>(a: Dyn<'a, Self>, ps: &[i32]) -> Dyn<'a, Self> {
                 let fr: [$FL; $n] = core::array::from_fn(|i| ps[i] as $FL / 4.0);
                 Dyn(Box::new(a.scale_amp_per_channel(fr)))
             }
-            fn offset_pc<'a>(a: Dyn<'a, Self>, ks: &[i64]) -> Dyn<'a, Self> { Dyn(Box::new(a.offset_amp_per_channel(Self::frame(ks)))) }
-            fn clip<'a>(a: Dyn<'a, Self>, t: i64) -> Dyn<'a, Self> { Dyn(Box::new(a.clip_amp(Self::of_o(t)))) }
+            fn offset_pc<'a>(a: Dyn<'a, Self>, ks: &[i128]) -> Dyn<'a, Self> { Dyn(Box::new(a.offset_amp_per_channel(Self::frame(ks)))) }
+            fn clip<'a>(a: Dyn<'a, Self>, t: i128) -> Dyn<'a, Self> { Dyn(Box::new(a.clip_amp(Self::of_o(t)))) }
         }
     };
 }
 int_kind!([i32; 2], i32, f32, "i2", 2);
 int_kind!([i32; 3], i32, f32, "i3", 3);
 int_kind!([i16; 2], i16, f32, "s2", 2);
+int_kind!([i64; 2], i64, f64, "l2", 2);
+
+/// unsigned samples: `Signed` = the signed twin, equilibrium 2^(bits-1); offsets / thresholds are
+/// signed amounts; the oracle works on the amplitude v - equilibrium
+macro_rules! uint_kind {
+    ($S:ty, $SG:ty, $FL:ty, $name:expr) => {
+        impl Kind for [$S; 2] {
+            type O = i128;
+            const NAME: &'static str = $name;
+            const N: usize = 2;
+            const FLOAT: bool = false;
+            const HAS_ADD: bool = false;
+            const BITS: u32 = <$S>::BITS;
+            fn raw(a: i128) -> i128 { (1i128 << (<$S>::BITS - 1)) + a }
+            fn delta(i: i64) -> i128 { i as i128 }
+            fn wide_delta(a: i128) -> i128 { a }
+            fn o_shift(a: i128, k: i128) -> i128 { a + k }
+            fn to_o(s: $S) -> i128 { s as i128 }
+            fn of_o(o: i128) -> $S { assert!(o >= 0 && o <= <$S>::MAX as i128, "harness value out of range"); o as $S }
+            fn tok(o: i128) -> String { o.to_string() }
+            fn amp_tok(p: i32) -> String { p.to_string() }
+            fn grid(i: i64) -> i128 { Self::raw(i as i128) }
+            fn o_add(a: i128, b: i128) -> i128 { a + b - Self::raw(0) }
+            fn o_sub(a: i128, b: i128) -> i128 { a - b + Self::raw(0) }
+            fn o_neg(a: i128) -> i128 { 2 * Self::raw(0) - a }
+            fn o_lin(a: i128, i: u64, b: i128) -> i128 { a + i as i128 * b }
+            fn o_scale(a: i128, p: i32) -> i128 { Self::raw(((a - Self::raw(0)) * p as i128 / 4).clamp(<$SG>::MIN as i128, <$SG>::MAX as i128)) }
+            fn o_mul(_: i128, _: i128) -> i128 { unreachable!() }
+            fn o_clip(t: i128, a: i128) -> i128 { Self::raw((a - Self::raw(0)).clamp(-t, t)) }
+            fn add<'a>(_: Dyn<'a, Self>, _: Dyn<'a, Self>) -> Dyn<'a, Self> { unreachable!("add_amp on an unsigned frame takes a signal of the signed twin's frames") }
+            fn mul<'a>(_: Dyn<'a, Self>, _: Dyn<'a, Self>) -> Dyn<'a, Self> { unreachable!() }
+            fn scale<'a>(a: Dyn<'a, Self>, p: i32) -> Dyn<'a, Self> { Dyn(Box::new(a.scale_amp(p as $FL / 4.0))) }
+            fn offset<'a>(a: Dyn<'a, Self>, k: i128) -> Dyn<'a, Self> { Dyn(Box::new(a.offset_amp(k as $SG))) }
+            fn scale_pc<'a>(a: Dyn<'a, Self>, ps: &[i32]) -> Dyn<'a, Self> { Dyn(Box::new(a.scale_amp_per_channel([ps[0] as $FL / 4.0, ps[1] as $FL / 4.0]))) }
+            fn offset_pc<'a>(a: Dyn<'a, Self>, ks: &[i128]) -> Dyn<'a, Self> { Dyn(Box::new(a.offset_amp_per_channel([ks[0] as $SG, ks[1] as $SG]))) }
+            fn clip<'a>(a: Dyn<'a, Self>, t: i128) -> Dyn<'a, Self> { Dyn(Box::new(a.clip_amp(t as $SG))) }
+        }
+    };
+}
+uint_kind!(u16, i16, f32, "w2");
+uint_kind!(u32, i32, f32, "x2");
+uint_kind!(u64, i64, f64, "y2");
 
 impl Kind for f64 {
     type O = f64;
@@ -134,6 +185,9 @@ impl Kind for f64 {
     const N: usize = 1;
     const FLOAT: bool = true;
     const HAS_ADD: bool = true;
+    const BITS: u32 = 0;
+    fn raw(_: i128) -> f64 { unreachable!() }
+    fn wide_delta(_: i128) -> f64 { unreachable!() }
     fn delta(i: i64) -> f64 { i as f64 / 16.0 }
     fn o_shift(a: f64, k: f64) -> f64 { a + k }
     fn to_o(s: f64) -> f64 { s }
@@ -163,6 +217,9 @@ impl Kind for [f32; 2] {
     const N: usize = 2;
     const FLOAT: bool = true;
     const HAS_ADD: bool = true;
+    const BITS: u32 = 0;
+    fn raw(_: i128) -> f32 { unreachable!() }
+    fn wide_delta(_: i128) -> f32 { unreachable!() }
     fn delta(i: i64) -> f32 { i as f32 / 16.0 }
     fn o_shift(a: f32, k: f32) -> f32 { a + k }
     fn to_o(s: f32) -> f32 { s }
@@ -184,36 +241,6 @@ impl Kind for [f32; 2] {
     fn scale_pc<'a>(a: Dyn<'a, Self>, ps: &[i32]) -> Dyn<'a, Self> { Dyn(Box::new(a.scale_amp_per_channel([ps[0] as f32 / 4.0, ps[1] as f32 / 4.0]))) }
     fn offset_pc<'a>(a: Dyn<'a, Self>, ks: &[f32]) -> Dyn<'a, Self> { Dyn(Box::new(a.offset_amp_per_channel([ks[0], ks[1]]))) }
     fn clip<'a>(a: Dyn<'a, Self>, t: f32) -> Dyn<'a, Self> { Dyn(Box::new(a.clip_amp(t))) }
-}
-
-/// unsigned samples: Signed = i16, Float = f32, equilibrium 32768; offsets / thresholds are i16 amounts
-impl Kind for [u16; 2] {
-    type O = i64;
-    const NAME: &'static str = "w2";
-    const N: usize = 2;
-    const FLOAT: bool = false;
-    const HAS_ADD: bool = false;
-    fn delta(i: i64) -> i64 { i }
-    fn o_shift(a: i64, k: i64) -> i64 { a + k }
-    fn to_o(s: u16) -> i64 { s as i64 }
-    fn of_o(o: i64) -> u16 { assert!((0..=65535).contains(&o), "harness value out of range"); o as u16 }
-    fn tok(o: i64) -> String { o.to_string() }
-    fn amp_tok(p: i32) -> String { p.to_string() }
-    fn grid(i: i64) -> i64 { 32768 + i }
-    fn o_add(a: i64, b: i64) -> i64 { a + b - 32768 }
-    fn o_sub(a: i64, b: i64) -> i64 { a - b + 32768 }
-    fn o_neg(a: i64) -> i64 { 65536 - a }
-    fn o_lin(a: i64, i: u64, b: i64) -> i64 { a + i as i64 * b }
-    fn o_scale(a: i64, p: i32) -> i64 { 32768 + ((a - 32768) * p as i64 / 4).clamp(-32768, 32767) }
-    fn o_mul(_: i64, _: i64) -> i64 { unreachable!() }
-    fn o_clip(t: i64, a: i64) -> i64 { 32768 + (a - 32768).clamp(-t, t) }
-    fn add<'a>(_: Dyn<'a, Self>, _: Dyn<'a, Self>) -> Dyn<'a, Self> { unreachable!("add_amp on [u16;2] takes an [i16;2] signal") }
-    fn mul<'a>(_: Dyn<'a, Self>, _: Dyn<'a, Self>) -> Dyn<'a, Self> { unreachable!() }
-    fn scale<'a>(a: Dyn<'a, Self>, p: i32) -> Dyn<'a, Self> { Dyn(Box::new(a.scale_amp(p as f32 / 4.0))) }
-    fn offset<'a>(a: Dyn<'a, Self>, k: i64) -> Dyn<'a, Self> { Dyn(Box::new(a.offset_amp(k as i16))) }
-    fn scale_pc<'a>(a: Dyn<'a, Self>, ps: &[i32]) -> Dyn<'a, Self> { Dyn(Box::new(a.scale_amp_per_channel([ps[0] as f32 / 4.0, ps[1] as f32 / 4.0]))) }
-    fn offset_pc<'a>(a: Dyn<'a, Self>, ks: &[i64]) -> Dyn<'a, Self> { Dyn(Box::new(a.offset_amp_per_channel([ks[0] as i16, ks[1] as i16]))) }
-    fn clip<'a>(a: Dyn<'a, Self>, t: i64) -> Dyn<'a, Self> { Dyn(Box::new(a.clip_amp(t as i16))) }
 }
 
 // ------------------------------------------------------------------------------------------
@@ -299,7 +326,7 @@ fn node_names<O>(t: &Tr<O>, out: &mut Vec<&'static str>) {
     let (name, kids): (&'static str, Vec<&Tr<O>>) = match t {
         Fi(_) => ("fi", vec![]), Fs(_) => ("fs", vec![]), Eq => ("eq", vec![]), Gc(_) => ("gc", vec![]), Gm(..) => ("gm", vec![]), Hole => ("_", vec![]),
         Ma(_, s) => ("ma", vec![s]), Mr(s) => ("mr", vec![s]), Mn(s) => ("mn", vec![s]), Sc(_, s) => ("sc", vec![s]), Of(_, s) => ("of", vec![s]),
-        Scp(_, s) => ("scp", vec![s]), Ofp(_, s) => ("ofp", vec![s]), Cl(_, s) => ("cl", vec![s]), Ins(s) => ("ins", vec![s]), Dl(_, s) => ("dl", vec![s]),
+        Scp(_, s) => ("scp", vec![s]), Ofp(_, s) => ("ofp", vec![s]), Cl(_, s) => ("cl", vec![s]), Ins(s) => ("ins", vec![s]), Dl(k, s) => (if *k >= (1usize << 31) { "dl_ge_2^31" } else { "dl" }, vec![s]),
         Z(c, a, b) => (ZIP[*c as usize], vec![a, b]), Add(a, b) => ("add", vec![a, b]), Mul(a, b) => ("mul", vec![a, b]),
     };
     out.push(name);
@@ -408,7 +435,7 @@ fn den<K: Kind>(t: &Tr<K::O>, hole: Option<&Den<K::O>>, h: usize) -> Den<K::O> {
         Ofp(ks, s) => un(s, &|f| f.iter().zip(ks.iter()).map(|(&x, &k)| K::o_shift(x, k)).collect()),
         Cl(t, s) => un(s, &|f| f.iter().map(|&x| K::o_clip(*t, x)).collect()),
         Ins(s) => den::<K>(s, hole, h),
-        Dl(k, s) => { let d = den::<K>(s, hole, h); let mut fr = vec![eq.clone(); *k]; fr.extend(d.fr); Den { fr: pad(fr), len: d.len.map(|l| l + k) } }
+        Dl(k, s) => { let d = den::<K>(s, hole, h); let mut fr = vec![eq.clone(); (*k).min(h)]; fr.extend(d.fr); Den { fr: pad(fr), len: d.len.map(|l| l.saturating_add(*k)) } }
         Hole => { let d = hole.expect("hole"); Den { fr: pad(d.fr.clone()), len: d.len } }
     }
 }
@@ -656,7 +683,55 @@ fn run_case<K: Kind>(st: &mut Stream, stream: &str, base: &Tr<K::O>, ops: &[Op<K
 // ------------------------------------------------------------------------------------------
 // generators
 
-struct G<'r> { rng: &'r mut Rng, budget: usize, explicit_e: bool }
+/// `wide`: Some(t) = "wide mode" for integer formats: samples of large magnitude around the clip
+/// threshold t, and only adaptors that are exact integer operations at that magnitude
+struct G<'r> { rng: &'r mut Rng, budget: usize, explicit_e: bool, wide: Option<i128> }
+
+/// delay lengths at and around the powers of two where a narrower counter would wrap, and the extremes of usize
+fn rare_delay(rng: &mut Rng) -> usize {
+    let d = rng.usize_below(7);
+    match rng.below(10) {
+        0 => usize::MAX - d,
+        1 => (1usize << 63) + d,
+        2 => (1usize << 32) + d,
+        3 => (1usize << 32) - 1 - d,
+        4 => (1usize << 33) + d,
+        5 => (1usize << 31) + d,
+        6 => ((1usize << 32) * (1 + rng.usize_below(1000))) + d,
+        7 => (1usize << (16 + rng.usize_below(48))) + d,
+        8 => (1usize << 16) + d,
+        _ => rng.next_u64() as usize | (1usize << 32),
+    }
+}
+
+fn smax<K: Kind>() -> i128 { (1i128 << (K::BITS - 1)) - 1 }
+
+/// clip thresholds of large magnitude (and a few small ones)
+fn wide_t<K: Kind>(rng: &mut Rng) -> i128 {
+    let m = smax::<K>() - 2000;
+    let b = K::BITS;
+    let cands: [i128; 14] = [1_000_000_000, 1 << 30, (1 << 30) + 1, 1i128 << (b - 2), 3i128 << (b - 4), m, smax::<K>() / 3, 1_000_000_000_000_000_000,
+        1i128 << 62, 3i128 << 60, 1 << 24, (1 << 24) + 1, (1i128 << 53) + 1, 5i128 << (b - 5)];
+    let t = if rng.chance(1, 5) { rng.range_i128(0, m) } else { *rng.pick(&cands) + rng.range(-3, 3) as i128 };
+    t.clamp(0, m)
+}
+
+/// amplitudes exactly at, just beyond (1..64 LSB) and just inside +-t, plus arbitrary ones
+fn wide_amp<K: Kind>(rng: &mut Rng, t: i128) -> i128 {
+    let m = smax::<K>() - 1500;
+    let sign = if rng.chance(1, 2) { 1 } else { -1 };
+    let a = match rng.below(10) {
+        0..=3 => sign * (t + rng.range(1, 64) as i128),
+        4 => sign * t,
+        5 => sign * (t - rng.range(0, 64) as i128),
+        6 => sign * (t + (1i128 << rng.below(K::BITS as u64 - 1))),
+        7 => rng.range_i128(-m, m),
+        8 => rng.range(-50, 50) as i128,
+        _ => sign * (t + rng.range(-300, 300) as i128),
+    };
+    a.clamp(-m, m)
+}
+fn wide_fr<K: Kind>(rng: &mut Rng, t: i128) -> Vec<K::O> { (0..K::N).map(|_| K::raw(wide_amp::<K>(rng, t))).collect() }
 
 fn val<K: Kind>(rng: &mut Rng, lim: i64) -> K::O { K::grid(rng.range(-lim, lim)) }
 fn fr<K: Kind>(rng: &mut Rng, lim: i64) -> Vec<K::O> { (0..K::N).map(|_| val::<K>(rng, lim)).collect() }
@@ -665,6 +740,11 @@ fn dfr<K: Kind>(rng: &mut Rng, lim: i64) -> Vec<K::O> { (0..K::N).map(|_| dl::<K
 
 fn gen_src<K: Kind>(g: &mut G) -> Tr<K::O> {
     let r = g.rng.below(100);
+    if let Some(t) = g.wide {
+        return if r < 45 { let l = 1 + g.rng.usize_below(8); Fi((0..l).map(|_| wide_fr::<K>(g.rng, t)).collect()) }
+        else if r < 85 { let l = (1 + g.rng.usize_below(8)) * K::N + g.rng.usize_below(K::N); Fs((0..l).map(|_| K::raw(wide_amp::<K>(g.rng, t))).collect()) }
+        else { Gc(wide_fr::<K>(g.rng, t)) };
+    }
     if r < 38 { let l = g.rng.usize_below(13); Fi((0..l).map(|_| fr::<K>(g.rng, 50)).collect()) }
     else if r < 70 { let l = g.rng.usize_below(13) * K::N + g.rng.usize_below(K::N); Fs((0..l).map(|_| val::<K>(g.rng, 50)).collect()) }
     else if r < 82 { Gm(fr::<K>(g.rng, 20), dfr::<K>(g.rng, 3)) }
@@ -677,6 +757,19 @@ fn amp<K: Kind>(rng: &mut Rng) -> i32 { if K::FLOAT { rng.range(-8, 8) as i32 } 
 /// wrap `s` in a random one-source adaptor
 fn gen_un<K: Kind>(g: &mut G, s: Tr<K::O>) -> Tr<K::O> {
     let s = Box::new(s);
+    if let Some(t) = g.wide {
+        let th = if g.rng.chance(3, 4) { t } else { wide_t::<K>(g.rng) };
+        return match g.rng.below(12) {
+            0 => Ma(dl::<K>(g.rng, 20), s),
+            1 => Mr(s),
+            2 => Mn(s),
+            3 => Of(dl::<K>(g.rng, 20), s),
+            4 => Ofp(dfr::<K>(g.rng, 20), s),
+            5 => Ins(s),
+            6 => Dl(g.rng.usize_below(3), s),
+            _ => Cl(K::wide_delta(th), s),
+        };
+    }
     match g.rng.below(10) {
         0 => Ma(dl::<K>(g.rng, 20), s),
         1 => Mr(s),
@@ -687,12 +780,13 @@ fn gen_un<K: Kind>(g: &mut G, s: Tr<K::O>) -> Tr<K::O> {
         6 => Ofp(dfr::<K>(g.rng, 20), s),
         7 => Cl(K::delta(g.rng.range(0, 40)), s),
         8 => Ins(s),
-        _ => Dl(g.rng.usize_below(5), s),
+        _ => Dl(if g.rng.chance(1, 6) { rare_delay(g.rng) } else { g.rng.usize_below(5) }, s),
     }
 }
 
 fn gen_bin<K: Kind>(g: &mut G, a: Tr<K::O>, c: Tr<K::O>) -> Tr<K::O> {
     let (a, c) = (Box::new(a), Box::new(c));
+    if g.wide.is_some() { return Z(2 + g.rng.below(2) as u8, a, c); }
     let n = if K::FLOAT { 7 } else if K::HAS_ADD { 5 } else { 4 };
     match g.rng.below(n) { k @ 0..=3 => Z(k as u8, a, c), 4 => Add(a, c), 5 => Mul(a, c), _ => Add(a, c) }
 }
@@ -797,9 +891,9 @@ fn enumerate<K: Kind>(g: &mut G, full: bool) -> Vec<Tr<K::O>> {
     let mut all = l0; all.extend(l1); all.extend(l2); all
 }
 
-fn run_stream<K: Kind>(st: &mut Stream, stream: &str, rng: &mut Rng, n_random: usize, max_depth: usize, enum_mode: Option<bool>) {
+fn run_stream<K: Kind>(st: &mut Stream, stream: &str, rng: &mut Rng, n_random: usize, n_wide: usize, max_depth: usize, enum_mode: Option<bool>) {
     let adapt = stream == "adapt";
-    let mut g = G { rng, budget: 0, explicit_e: !adapt };
+    let mut g = G { rng, budget: 0, explicit_e: !adapt, wide: None };
     // (1) every source length 0..12 (x every remainder of the sample count) under short adaptor stacks
     for l in 0..=12usize { for rem in 0..K::N { for variant in 0..4 {
         if rem > 0 && variant % 2 == 0 { continue; }
@@ -840,6 +934,37 @@ fn run_stream<K: Kind>(st: &mut Stream, stream: &str, rng: &mut Rng, n_random: u
         run_case::<K>(st, stream, &base, &ops);
         st.count("part_random");
     }
+    // (4) rare values: very long delays (nothing may be pulled from the source, owned or borrowed, during the silence) ...
+    for &k in &[(1usize << 31) - 1, 1 << 31, (1 << 32) - 1, 1 << 32, (1 << 32) + 1, (1 << 32) + 3, 1 << 33, (1 << 40) + 5, 1 << 63, usize::MAX - 1, usize::MAX] {
+        for variant in 0..3 {
+            g.budget = 3;
+            let inner = gen_tree::<K>(&mut g, 1, false);
+            let base = match variant { 0 => Dl(k, Box::new(inner)), 1 => Dl(2, Box::new(Dl(k, Box::new(inner)))), _ => inner };
+            let ops = if variant == 2 {
+                // the long delay sits in an adaptor stack over `&mut base`: the base must resume untouched
+                let ctx = Dl(k, Box::new(Hole));
+                let ctx = if g.rng.chance(1, 2) { gen_un::<K>(&mut g, ctx) } else { ctx };
+                vec![Op::N, Op::R { with_e: !adapt, j: 2 + g.rng.usize_below(5), ctx }, Op::N, Op::N]
+            } else if adapt { script_adapt::<K>(&mut g, &base) } else { script_exhaust::<K>(&mut g, &base) };
+            run_case::<K>(st, stream, &base, &ops);
+            st.count("part_rare_long_delay");
+        }
+    }
+    // ... and, on integer formats, samples of large magnitude exactly at / just beyond / just inside the clip threshold
+    if K::BITS > 0 {
+        for _ in 0..n_wide {
+            let t = wide_t::<K>(g.rng);
+            g.wide = Some(t);
+            g.budget = 5;
+            let d = 1 + g.rng.usize_below(3);
+            let inner = gen_tree::<K>(&mut g, d - 1, false);
+            let base = if g.rng.chance(2, 3) { Cl(K::wide_delta(t), Box::new(inner)) } else { gen_un::<K>(&mut g, inner) };
+            let ops = if adapt { script_adapt::<K>(&mut g, &base) } else { script_exhaust::<K>(&mut g, &base) };
+            g.wide = None;
+            run_case::<K>(st, stream, &base, &ops);
+            st.count("part_rare_wide_clip");
+        }
+    }
 }
 
 fn main() {
@@ -848,14 +973,18 @@ fn main() {
     if stream != "adapt" && stream != "exhaust" { eprintln!("unknown stream {}", stream); std::process::exit(2); }
     let mut st = Stream::new(&a.out, &stream);
     let mut rng = Rng::new(a.seed, &stream);
-    let (n, d) = if a.thorough() { (10_000, 10) } else { (1_200, 6) };
+    let (n, w, d) = if a.thorough() { (8_000, 6_000, 10) } else { (900, 250, 6) };
+    let t = a.thorough();
     // quick: reduced-alphabet enumeration for two kinds; thorough: full alphabet for one integer kind and f64, reduced for the rest
-    run_stream::<f64>(&mut st, &stream, &mut rng, n, d, Some(a.thorough()));
-    run_stream::<[i32; 2]>(&mut st, &stream, &mut rng, n, d, Some(a.thorough()));
-    run_stream::<[i16; 2]>(&mut st, &stream, &mut rng, n, d, if a.thorough() { Some(false) } else { None });
-    run_stream::<[i32; 3]>(&mut st, &stream, &mut rng, n, d, if a.thorough() { Some(false) } else { None });
-    run_stream::<[f32; 2]>(&mut st, &stream, &mut rng, n, d, if a.thorough() { Some(false) } else { None });
-    run_stream::<[u16; 2]>(&mut st, &stream, &mut rng, n, d, if a.thorough() { Some(false) } else { None });
+    run_stream::<f64>(&mut st, &stream, &mut rng, n, 0, d, Some(t));
+    run_stream::<[i32; 2]>(&mut st, &stream, &mut rng, n, w, d, Some(t));
+    run_stream::<[i16; 2]>(&mut st, &stream, &mut rng, n, w / 2, d, if t { Some(false) } else { None });
+    run_stream::<[i32; 3]>(&mut st, &stream, &mut rng, n, w / 2, d, if t { Some(false) } else { None });
+    run_stream::<[f32; 2]>(&mut st, &stream, &mut rng, n, 0, d, if t { Some(false) } else { None });
+    run_stream::<[u16; 2]>(&mut st, &stream, &mut rng, n, w / 2, d, if t { Some(false) } else { None });
+    run_stream::<[u32; 2]>(&mut st, &stream, &mut rng, n / 2, w, d, None);
+    run_stream::<[i64; 2]>(&mut st, &stream, &mut rng, n / 2, w, d, None);
+    run_stream::<[u64; 2]>(&mut st, &stream, &mut rng, n / 2, w, d, None);
     st.exhaustive = false;
     st.finish();
 }
